@@ -313,11 +313,24 @@ pub fn record_samples(output: &str) {
         let ctor = if tiny { "new" } else if with_sibling { CTORS[(n % 2) * 2] } else { CTORS[n % 3] };
         let c = build(ctor, &fr, &tr, &fd, &td);
         if ctor == "from_degrees" { fr = c.from; tr = c.to; }
+        // every third set is sampled the way the planners do it: through the constraints a robot hands out (a robot
+        // declared 5-DOF every second time)
+        let via_robot = n % 3 == 1;
+        let holder = if via_robot {
+            let mut p = rs_opw_kinematics::parameters::opw_kinematics::Parameters::irb2400_10();
+            if n % 2 == 0 { p.dof = 5; }
+            Some(rs_opw_kinematics::kinematics_impl::OPWKinematics::new_with_constraints(p, c.clone()))
+        } else { None };
+        let c: Constraints = match &holder {
+            Some(robot) => { use rs_opw_kinematics::kinematic_traits::Kinematics; robot.constraints().clone().unwrap_or(c) }
+            None => c,
+        };
         let mut sample = |c: &Constraints, from: &[i64; 6], to: &[i64; 6], out: &mut Out| {
             for _ in 0..draws {
                 match guarded(|| c.random_angles()) {
                     Some(q) => {
-                        let acc = c.compliant(&q);
+                        // accepted by `compliant` and kept by `filter` of the same constraints
+                        let acc = c.compliant(&q) && c.filter(&vec![q]).len() == 1;
                         out.put(json!({"ev": "sample", "from": from, "to": to, "a": au6(&q), "acc": acc, "outcome": "ok", "ctor": ctor, "tiny": tiny}));
                     }
                     None => {
